@@ -128,7 +128,10 @@ func runSys(toks []string) (string, string) {
 	srv.SetCommandHandler(h)
 	if pw != nil {
 		srv.SetRequirePass(*pw)
-		srv.AddAuthenticator(auth.NewClearTextPasswordAuthenticatorWith("", *pw))
+		// as Server.Start does it: the authenticator is built from the password read back from the configuration
+		if cfgPw, ok := srv.ConfigRequirePass(); ok {
+			srv.AddAuthenticator(auth.NewClearTextPasswordAuthenticatorWith("", cfgPw))
+		}
 	}
 	if authMsg {
 		srv.SetAuthCommandHandler(&msgAuthHandler{srv: srv})
